@@ -400,7 +400,15 @@ class KCenters(Contract):
         return c
 
     def result(self, e, st, args):
-        raise NotImplementedError
+        from pyvc.engine import RecV
+        n = e.deref(st, args['traj']).shape[0]
+        k = e.fresh('n_centers', 'int')
+        st.pc.append(k >= 1)
+        ci = e.fresh_arr(st, 'center_indices', 'int', (k,))
+        st.heap[ci.oid].meta = {'list': True}
+        return e.new_obj(st, RecV('ClusterResult', {'center_indices': ci, 'assignments': e.fresh_arr(st, 'kc_assignments', 'int', (n,)),
+                                                     'distances': e.fresh_arr(st, 'kc_distances', 'real', (n,)),
+                                                     'centers': e.fresh_arr(st, 'kc_centers', 'frame', (k,))}))
 
     def ensures(self, L, A, N, R, G, V):
         X = A['traj']
@@ -420,6 +428,8 @@ class KCenters(Contract):
         if self.start == 'cold':
             out.append(('first-center-is-frame-0', ctr[0] == 0))
         k0 = 0 if self.start == 'cold' else L.len(A['init_centers'])
+        if L.sym and V is None:
+            return out          # call site: the farthest-first history is ghost state of the callee, not visible to callers
         if L.sym:
             RAD, H, W = V['ghost_RAD'], V['ghost_H'], V['ghost_W']
         else:
